@@ -18,7 +18,7 @@ func init() {
 	serve("C09", "L1", "L2", "L8", "P3", "P3c", "P8", "L6", "S4", "G7", "G7r", "G16", "P12", "L11")
 	serve("C10", "P3", "P3w", "P4", "P5", "P7", "L1", "L8", "G15", "G16", "G21", "P12")
 	serve("C11", "R1", "R2", "R3", "R4", "P1", "P2", "G17", "P11", "W5", "P8")
-	serve("C12", "S2", "S3", "S4", "S6", "S7", "S8", "V3", "G16")
+	serve("C12", "S2", "S3", "S4", "S6", "S7", "S8", "V3", "G16", "S9")
 	serve("C13", "S1", "S5", "S7")
 	serve("C14", "L4", "L1", "L5", "L8", "G6", "G6r", "V1", "V7", "V8", "L10", "L11")
 	serve("C15", "L1", "L8", "L9", "G3", "G13", "L7", "G22", "G23")
